@@ -15,13 +15,21 @@ def gen_scenarios(rnd: random.Random, count):
     out = []
     # a fixed set of configurations (they are CONSTANTS of the specification: one TLC run per configuration)
     configs = [(1, 2, 2, 2, 0), (2, 2, 2, 2, 1), (2, 1, 3, 2, 0), (2, 3, 1, 1, 2), (2, 2, 3, 1, 0), (1, 3, 1, 2, 2),
-               (2, 2, 0, 2, 0), (2, 2, 1, 2, 2)]
+               (2, 2, 0, 2, 0), (2, 2, 1, 2, 2), (1, 1, 2, 3, 0), (2, 1, 1, 3, 1)]
     for j in range(count):
         m, nc, k, rounds, qb = configs[j % len(configs)]
+        # who calls renew() between the rounds: the creating process, or consumer 1's process - on ITS copy of the queue
+        # object, which arrived there by pickling - when asked to, or ('self', single consumer only) consumer 1 on its own,
+        # the moment its iteration has ended ("the consumer calls renew upon finishing iteration"), while the tokens it has
+        # just moved between the helper queues are still on their way: in that variant the helper queues of the consumer
+        # process deliver with a latency of 30 ms (a multiprocessing queue delivers through a background thread and promises
+        # no speed; `full()` is decided at once by the queue's semaphore, `empty()` and `get()` by what has arrived)
+        if rounds > 1 and nc == 1:
+            renewer = ('self', 'main', 'c1')[(j // len(configs)) % 3]
+        else:
+            renewer = ('main', 'c1')[(j // len(configs)) % 2] if rounds > 1 else 'main'
         out.append({'m': m, 'nc': nc, 'k': k, 'rounds': rounds, 'qbound': qb,
-                    # who calls renew() between the rounds: the creating process, or consumer 1's process - on ITS copy of the
-                    # queue object, which arrived there by pickling
-                    'renewer': ('main', 'c1')[(j // len(configs)) % 2] if rounds > 1 else 'main',
+                    'renewer': renewer, 'slow_ms': 30 if renewer == 'self' else 0,
                     # pauses (ms) before each operation of each party: varies who sees the bottom first
                     'pause': {f'{role}{n}': [rnd.choice([0, 0, 1, 3, 8]) for _ in range(8)]
                               for role, cnt in (('s', m), ('c', nc)) for n in range(1, cnt + 1)}})
@@ -58,9 +66,23 @@ def supplier_main(iq, s, sc, go, res_q):
         res_q.put(('error', 's', s, ''.join(traceback.format_exception(type(e), e, e.__traceback__))[-2000:], evs))
 
 
+def _slow_delivery(q, ms):
+    """the queue's feeder thread (of THIS process) takes `ms` longer to write each item into the pipe"""
+    send = q._send_bytes
+
+    def slow_send(*a, **k):
+        time.sleep(ms / 1000.0)
+        return send(*a, **k)
+
+    q._send_bytes = slow_send
+
+
 def consumer_main(iq, c, sc, go, res_q, renew_req=None, renew_ack=None):
     evs = []
     try:
+        if sc.get('slow_ms'):
+            for nm in ('_used_lids', '_spare_lids', '_applied_lids'):
+                _slow_delivery(getattr(iq, nm), sc['slow_ms'])
         for r in range(1, sc['rounds'] + 1):
             if not go[r - 1].wait(STEP_S):
                 raise RuntimeError(f'round {r} never started')
@@ -74,7 +96,7 @@ def consumer_main(iq, c, sc, go, res_q, renew_req=None, renew_ack=None):
             evs.append({'ev': 'ConsDone', 'n': c})
             res_q.put(('done', 'c', c, r))
             if renew_req is not None and r < sc['rounds']:
-                if not renew_req[r - 1].wait(STEP_S):
+                if sc.get('renewer') != 'self' and not renew_req[r - 1].wait(STEP_S):
                     raise RuntimeError(f'round {r}: the request to renew never came')
                 iq.renew()
                 renew_ack[r - 1].set()
@@ -97,7 +119,7 @@ def _run_scenario(sc, box):
     procs = []
     for s in range(1, m + 1):
         procs.append(Process(target=supplier_main, args=(iq, s, sc, go, res_q), name=f'sup{s}'))
-    by_c1 = sc.get('renewer') == 'c1'
+    by_c1 = sc.get('renewer') in ('c1', 'self')
     renew_req = [Event() for _ in range(rounds)] if by_c1 else None
     renew_ack = [Event() for _ in range(rounds)] if by_c1 else None
     for c in range(1, nc + 1):
